@@ -2546,6 +2546,13 @@ func (g *group) assignUniform(allTPs []assignorTP, memberIDs []string, memberSub
 				if _, ok := memberSubs[mid][topic]; !ok {
 					continue
 				}
+				if assigned[k] {
+					// Already kept by an earlier member (a static
+					// member can inherit a target that was handed
+					// to someone else while it was away): one
+					// owner per partition.
+					continue
+				}
 				kept = append(kept, p)
 				assigned[k] = true
 			}
